@@ -125,3 +125,50 @@ def check_C20(tier, seed):
                        "distinct non-trivial = distinct (query, result) pairs")
     res.notes.update({"schemas": len(valid), "rows": nrows})
     return res
+
+# ------------------------------------------------------------------ C10
+def fsm_sequences(res, wd, maxlen):
+    r = tlc("DirectiveFSM", f"DirectiveFSM_{maxlen}.cfg", {}, wd, workers=4, timeout=900, extra=["-coverage", "1"])
+    res.add_tlc(r)
+    if not r["ok"]: raise ToolError("DirectiveFSM: an invariant of the automaton itself fails:\n" + r["out"][-2000:])
+    seqs = []
+    for line in r["out"].splitlines():
+        m = re.match(r'^<<"SEQ", (".*"), "([A-Za-z]+)", (TRUE|FALSE)>>$', line.strip())
+        if m: seqs.append((json.loads(tla_unquote(m.group(1))), m.group(2), m.group(3) == "TRUE"))
+    return seqs
+
+def check_C10(tier, seed):
+    import docfam
+    res = Result("C10", tier, seed, "exploration")
+    wd = workdir("C10")
+    seqs = fsm_sequences(res, wd, 3 if tier == "quick" else 4)
+    insts = docfam.doc_instances(seqs, seed)
+    obs = observe(insts, wd, "", seed)
+    classes = {}; drift = 0; kinds = set()
+    for inst, o in zip(insts, obs):
+        c = o["compile"]; cls = inst["cls"]
+        tags = set()
+        if cls.get("retransform") or "@transform(op: \"count\") @transform" in inst["text"]: tags.add("retransform")
+        if re.search(r"\(min: \[?[A-Z]+\]?\)|min: FOO", inst["text"]): tags.add("enum_literal_parameter")
+        if re.match(r"^\s*(query|mutation|subscription)?\s*\w*\s*\{.*\}\s*(query|mutation|subscription|\{)", inst["text"], re.S) and inst["text"].count("query A") + inst["text"].count("} {") >= 1: tags.add("two_operations")
+        kind = "ok" if c["t"] == "ok" else ("panic" if c["t"] == "panic" else (c.get("dbg", "?").split("(")[0].split(" ")[0]))
+        kinds.add(kind)
+        classes[cls["family"] + ":" + kind] = classes.get(cls["family"] + ":" + kind, 0) + 1
+        if c["t"] == "panic":
+            res.violation(f"the frontend panicked: {c['err'][:200]} on document {inst['text']!r}", text=c["err"], tags=tags, replay={"text": inst["text"], "cls": cls}); continue
+        if c["t"] == "ok" and o.get("exec", {}).get("t") == "panic":
+            res.drift.append(f"accepted document panics at execution (C09's business): {inst['text'][:100]!r}: {o['exec']['err'][:100]}")
+        if cls["family"] == "dirseq":
+            parse_err = c["t"] != "ok" and c.get("dbg", "").startswith("ParseError(")
+            if (cls["predicted"] != "ok") != parse_err and not (cls["predicted"] == "ok" and c["t"] != "ok"):
+                drift += 1
+                if drift <= 3: res.drift.append(f"DirectiveFSM predicts {cls['predicted']} for {cls['seq']} at {cls['pos']}, frontend says {c.get('dbg', c['t'])[:80]}")
+        if c["t"] != "ok" and len(res.cov["samples"]) < 5 and cls["family"] != "dirseq": res.sample({"document": inst["text"][:160], "outcome": c.get("dbg", "")[:100]})
+    res.cov["evaluations"] = len(insts)
+    res.cov["distinct_nontrivial"] = sum(1 for k in classes)
+    res.cov["rule"] = (f"every directive sequence of length <= {3 if tier == 'quick' else 4} that spec/DirectiveFSM.tla reaches (TLC enumerates the automaton and checks its invariants), rendered on an edge field, a property field and the root field; "
+                       f"{len(docfam.MALFORMED)} malformed single directives at two positions; {len(docfam.SHAPES)} document shapes (operations, fragments, variable definitions, root selections, inline fragments, aliases, unterminated text); "
+                       f"{len(docfam.PARAMS)} edge-parameter literals at three positions; each parsed by the real frontend under catch_unwind. distinct non-trivial = distinct (family, outcome kind) classes observed")
+    res.notes.update({"sequences": len(seqs), "outcome_classes": classes, "fsm_mismatches": drift})
+    res.assumptions += ["below GraphQL token level (arbitrary bytes) is async-graphql-parser's territory and not enumerated"]
+    return res
